@@ -257,6 +257,26 @@ Theorem C11_unix_items_example :
 Proof. exact unix_items_example. Qed.
 Print Assumptions C11_unix_items_example.
 
+(* ---- after os.fork(): every synchronisation object that net_connections() uses (dumped from the code: module-level
+   locks and lock attributes of the module-level singletons it goes through) is re-created by an
+   os.register_at_fork(after_in_child=...) handler -- on a tree that keeps no such object the table is empty -- ... *)
+Theorem C11_fork_sync_reinitialised : forallb (fun e => snd e) gen_fork_sync = true.
+Proof. exact fork_sync_reinitialised. Qed.
+Print Assumptions C11_fork_sync_reinitialised.
+
+(* ... hence a forked child gets the model's answer for every call, whether or not another thread of the parent was inside
+   net_connections() at the moment of the fork (all the theorems above then apply to the child's calls) *)
+Theorem C11_fork_child_answers : forall v le o files procs kind held,
+  in_forked_child held (net_connections v le o files procs kind) = Answers (net_connections v le o files procs kind).
+Proof. intros. apply fork_child_answers. Qed.
+Print Assumptions C11_fork_child_answers.
+
+Theorem C11_fork_child_answers_proc : forall v le o files pid ls kind held,
+  in_forked_child held (proc_net_connections v le o files pid ls kind)
+  = Answers (proc_net_connections v le o files pid ls kind).
+Proof. intros. apply fork_child_answers. Qed.
+Print Assumptions C11_fork_child_answers_proc.
+
 (* ---- the CLASSES of the field values (family and type are tagged: TEnum = a member of socket.AddressFamily /
    socket.SocketKind, TInt = a plain int; row_ok compares the tags, so every row theorem above and below says: family IS
    the AddressFamily member, type IS the SocketKind member -- SOCK_SEQPACKET, not the bare 5 -- and a number without a
